@@ -174,6 +174,34 @@ def job_deep():
                                         {"engine": "E2", "module": MOD, "part": "deep", "kind": kind, "height": height, "iterator": name})
                 for nd in nodes:
                     nd.parent = None
+        # deep AND branching (added after wave 10): a spine of height 300 where every spine node has the children
+        # (leaf, next spine node, inner node with one leaf) - an order that is only right near the start node, or only
+        # on chains, shows here; all five iterators, from the root, from the middle and from near the bottom
+        spine = 300
+        par, ch = [None], [[]]
+        cur = 0
+        for _k in range(spine):
+            ids = list(range(len(par), len(par) + 4))     # leaf, next spine, inner, leaf below inner
+            par += [cur, cur, cur, ids[2]]
+            ch += [[], [], [ids[3]], []]
+            ch[cur] = ids[:3]
+            cur = ids[1]
+        m = tree.Model(par, ch)
+        for kind in ("user", "light"):
+            nodes = tree.build(m, tree.default_factory(kind), "topdown")
+            idm = tree.IdMap(nodes)
+            for start in (0, 2 + 4 * (spine // 2 - 1), 2 + 4 * (spine - 3)):
+                for name in its:
+                    got = list(its[name](nodes[start]))
+                    got = [idm.seq(g) for g in got] if name in ("groups", "zigzag") else idm.seq(got)
+                    exp = getattr(m, name)(start)
+                    t.c["evaluations"] += 1
+                    t.c["deep_chain_iterations"] += 1
+                    if got != exp:
+                        t.violation("C05: %s on a branching tree of height %d (start at depth %d) differs from its definition" % (name, spine, m.depth(start)),
+                                    {"engine": "E2", "module": MOD, "part": "deep", "kind": kind, "height": spine, "iterator": name, "shape": "caterpillar"})
+            for nd in nodes:
+                nd.parent = None
         # one very wide node: the iterators must not spend stack frames (or quadratic time) per sibling
         width = 5000
         m = tree.Model([None] + [0] * width, [list(range(1, width + 1))] + [[] for _ in range(width)])
